@@ -43,6 +43,16 @@ def _observe(job):
                         batch.append({'a': int(ufx[i, j]), 'b': int(out[t])})
                 except Exception:
                     batch.append({'a': 0, 'b': 1})
+            # rows that are close to each other without being equal (a few 1e-7 apart) are different rows
+            near = [(g[i], g[j]) for i, j in sel[:8]]
+            near = near + [(min(y + 3e-7, 1 - 1e-9), min(v + 2e-7, 1 - 1e-9)) for y, v in near] + [(max(y - 4e-7, 1e-9), v) for y, v in near]
+            try:
+                single = [float(np.ravel(m.percent_point(np.array([y]), np.array([v])))[0]) for y, v in near]
+                out = np.asarray(m.percent_point(np.array([y for y, v in near]), np.array([v for y, v in near])), dtype=float)
+                for a, b in zip(O.fx(np.array(single)), O.fx(out)):
+                    batch.append({'a': int(a), 'b': int(b)})
+            except Exception:
+                batch.append({'a': 0, 'b': 1})
     # residual tolerance: root-finder tolerance 1e-6 (the property's "up to root-finder tolerance")
     return {'fam': fam, 'theta': '%.6g' % theta, 'S': O.S, 'Y': O.fx(g).tolist(), 'U': ufx.tolist(), 'R': O.fx(R).tolist(),
             'err': err, 'tol': 100, 'batch': batch, 'grid': g.tolist(),
@@ -55,12 +65,13 @@ def run(ctx):
     npts = 12 if quick else 20
     ctx.rule = ('for each family a chain of %d thetas over the property range and a %dx%d grid of (y, v) in [1e-4, 1-1e-4]^2 refined towards the '
                 'ends: u = percent_point(y, v) (one-element calls) must lie in [0,1], satisfy |partial_derivative(u, v) - y| <= 1e-6, be '
-                'non-decreasing in y; vector calls of length 2, 60, 65 (with repeats) and reversed order must reproduce the one-element results. '
+                'non-decreasing in y; vector calls of length 2, 60, 65 (with repeats), reversed order and with rows a few 1e-7 apart must reproduce the one-element results. '
                 'TLC (InverseLaws) evaluates the laws.  non-trivial = every table; distinct by (family, theta)') % (nchain, npts + 1, npts + 1)
     ctx.assumptions = ['the inverse is judged through the implementation\'s own partial_derivative (C07 ties that to the CDF)']
     jobs = [(fam, pos, th, npts) for fam in O.FAMS for pos, th in enumerate(O.chain(fam, nchain), 1)]
     with Pool(16) as pool:
-        obs = pool.map(_observe, jobs, chunksize=1)
+        obs = pool.map(O.Safe(_observe), jobs, chunksize=1)
+    obs, jobs = O.split_raised(ctx, 'C08', obs, jobs, 'harness.props.C08._observe')
     ctx.extra['max_residual'] = max(o['maxres'] for o in obs)
     recs = [{k: v for k, v in o.items() if k not in ('maxres', 'grid')} for o in obs]
     verdict = O.run_laws(ctx, 'InverseLaws', 'InverseLaws', recs)
